@@ -100,11 +100,21 @@ var c15prio = porcupine.Model{
 	Equal: func(a, b interface{}) bool { return a.(string) == b.(string) },
 }
 
-func TestVerifC15(t *testing.T) {
+func TestVerifC15(t *testing.T) { c15test(t, "C15") }
+
+// TestVerifC08Q runs the same queue scenarios as a part of C08: the message pipeline parks messages in a priority
+// queue per sender and hands them back through the simple queue; "no message stays parked, none is lost or delivered
+// twice, whatever the schedule" rests on these two queues under concurrent Add / NextAll / WaitForItem.
+func TestVerifC08Q(t *testing.T) { c15test(t, "C08") }
+
+func c15test(t *testing.T, property string) {
 	kernel.Component("internal/queue SimpleQueue and PriorityQueue", "real (instrumented copy of the working tree)")
 	kernel.Component("goroutine scheduling at lock/unlock/select", "simulated (seeded cooperative scheduler in a synctest bubble)")
-	kernel.Check(t, "C15", func(r *kernel.Run) {
+	kernel.Check(t, property, func(r *kernel.Run) {
 		mode := r.Pick("mode", 4)
+		if property == "C08" {
+			mode = 2 + r.Pick("c08mode", 2) // the simple queue with a waiting consumer, and the priority queue
+		}
 		strategy := r.Pick("strategy", 3)
 		r.Words(384)
 		var res string
